@@ -61,7 +61,11 @@ class AnySpecifier(BaseSpecifier):
         return ""
 
     def __hash__(self) -> int:
-        return hash(str(self))
+        # must agree with the other spelling of the universal set, which
+        # compares equal to this one
+        from dep_logic.specifiers.range import RangeSpecifier
+
+        return hash(RangeSpecifier())
 
     def __eq__(self, other: object) -> bool:
         if not isinstance(other, BaseSpecifier):
